@@ -21,6 +21,9 @@ UNICODE_ODDITIES = ["e\u0301", "\u212b", "\u2126", "\u1100\u1161", "\ufb01", "\u
 
 # Strings that mean something to OTHER layers (markup, format strings, escapes, regex, numbers): a payload
 # is carried verbatim, whatever it looks like.
+# whole payloads wrapped in a pair of delimiters (candidates for "helpful" unwrapping)
+WRAPPED = ["[idle]", "[section Intro]", "[lyric Oh]", "[]", "[x]", "(x)", "{x}", "<x>", "'x'", "`x`", "[a] [b]", "[[x]]",
+           "(section a)", "{lyric b}", " x ", "\tx\t", "[x", "x]"]
 MARKUP_ODDITIES = ["<i>", "</i>", "<color=#ff0000>", "<", ">", "<>", "1 < 2 > 1", "&amp;", "&lt;", "%s", "%d%%", "{0}",
                    "{}", "\\n", "\\t", "\\", "$1", "(.*)", "[a-z]+", "^$", "\\d", "../", "a/b", "C:\\x", "NULL", "None",
                    "true", "0x1F", "1e5", "+5", "-0", "#", ";", "//", "'", "`", "|", "*", "?", "!", "~", "@"]
@@ -282,6 +285,7 @@ global_texts = st.one_of(
              max_size=4).map("".join),
     st.lists(st.sampled_from(MARKUP_ODDITIES + ["lyric ", "section ", "Oh", " "]), min_size=1,
              max_size=4).map("".join),
+    st.sampled_from(WRAPPED),
 )
 
 
